@@ -29,6 +29,9 @@ HISTORIES = {
     "subs": [("x", [("train", 3)]), ("x/y", [("train", 1), ("test", 2)]),
              ("x", [("train", 1)]),
              ("multi", [[("train", 2)], [("train", 1), ("test", 1)]])],
+    # nested sub-directories whose intermediate lists do not exist yet
+    "nest": [("root", [("train", 2)]), ("a/b", [("train", 2), ("test", 1)]),
+             ("a/c/d", [("train", 1)]), ("e/f", [("test", 1)])],
     "mp": [("root", [("train", 1)]),
            ("mp", [[("train", 3)], [("train", 1), ("test", 2)], []])],
 }
